@@ -176,6 +176,58 @@ fn update_case<const NC: usize>(pairs: [(usize, usize); NC], l: usize, s: usize)
     std::mem::forget(m);
 }
 
+fn any_lit6() -> usize {
+    let x: u8 = kani::any();
+    kani::assume(x < 6);
+    x as usize
+}
+
+/// Path-mode harnesses (CBMC --paths lifo): EVERYTHING is symbolic - the watched pair of every clause, the
+/// literal whose list is edited, the position in that list and the new watch.  On each path the literal ids
+/// that reach Mapping::insert are decided by the branch conditions, which is what the merged-state encoding
+/// could not afford (DESIGN P22).
+fn paths_update_case<const NC: usize>() {
+    let mut m = new_map();
+    let mut w: Watches = [None, None, None];
+    let mut i = 0;
+    while i < NC {
+        let a = any_lit6();
+        let b = any_lit6();
+        kani::assume(a != b);
+        w[i] = Some(watch_pair(&mut m, a, b, ClauseId::from_usize(i)));
+        i += 1;
+    }
+    check_all_lists(&mut m, &mut w);
+    let l = any_lit6();
+    let n = any_lit6();
+    kani::assume(n != l);
+    let s: usize = kani::any();
+    kani::assume(s < NC);
+    let happened = update_at(&mut m, &mut w, l, n, s);
+    kani::cover!(happened, "an update happened");
+    kani::cover!(happened && s == NC - 1, "update at the last position of a list shared by all clauses");
+    kani::cover!(!happened, "literal watched by fewer clauses than the requested position");
+    std::mem::forget(m);
+}
+
+#[kani::proof]
+#[kani::unwind(8)]
+fn k6_paths_update_1() {
+    paths_update_case::<1>();
+}
+
+#[kani::proof]
+#[kani::unwind(8)]
+fn k6_paths_update_2() {
+    paths_update_case::<2>();
+}
+
+#[kani::proof]
+#[kani::unwind(8)]
+fn k6_paths_update_3() {
+    paths_update_case::<3>();
+}
+
 #[kani::proof]
 #[kani::unwind(8)]
 fn k6_twin_must_fail() {
